@@ -164,6 +164,9 @@ def evalWhere (w : WhereC) (row : Row) : Bool :=
   match walkNames (.map row) w.col with
   | none => false
   | some v =>
+    match v, w.lit with
+    | .int a, .int b => cmpOp w.op (fun x y => decide (x < y)) (fun x y => x == y) a b   -- integers compare exactly, whatever their size
+    | _, _ =>
     match numOf v, numOf w.lit with
     | some a, some b => cmpOp w.op (fun x y => x < y) (fun x y => x == y) a b
     | _, _ =>
